@@ -105,7 +105,7 @@ def breakpoints(rng):
     m.tags.update({"big:breakpoints", "trees>=256"})
     if unsq:
         m.tags.add("unsquashed")
-    return _finish(rng, m, max_sites=8)
+    return _finish(rng, m, max_sites=rng.choice([8, 8, 40, 120]))
 
 
 def chain(rng):
